@@ -75,17 +75,19 @@ type Out struct {
 }
 
 type world struct {
-	t       *tor.Torrent
-	ctx     context.Context
-	peers   map[string]*fakepeer.Peer
-	names   []string
-	out     *Out
-	step    int
-	npieces int
-	nchunks int
-	psize   int
-	length  int64
-	seed    uint64
+	t         *tor.Torrent
+	ctx       context.Context
+	peers     map[string]*fakepeer.Peer
+	cancelled map[string]map[[3]uint32]bool // requests we have sent a Cancel for, or that the remote has answered
+	answered  *[3]uint32
+	names     []string
+	out       *Out
+	step      int
+	npieces   int
+	nchunks   int
+	psize     int
+	length    int64
+	seed      uint64
 	// what each remote has allowed, for the C11 checks
 	outstanding map[string]map[[3]uint32]bool
 }
@@ -148,18 +150,30 @@ func (w *world) checkWire(name string) {
 					w.viol("C11", "request-duplicate", desc+": already outstanding at that peer")
 				}
 				w.outstanding[name][key] = true
+				delete(w.cancelled[name], key)
 				max := st.ReqQ
 				if max < 2 {
 					max = 2
 				}
-				if len(w.outstanding[name]) > max {
-					w.viol("C11", "request-queue-depth", desc+fmt.Sprintf(": %d outstanding, queue depth %d", len(w.outstanding[name]), st.ReqQ))
+				// what the remote still has to answer: requests we have sent and not cancelled
+				live := 0
+				for k := range w.outstanding[name] {
+					if !w.cancelled[name][k] {
+						live++
+					}
+				}
+				if live > max {
+					w.viol("C11", "request-queue-depth", desc+fmt.Sprintf(": %d requests outstanding at the peer (not counting cancelled ones), it advertised a queue depth of %d", live, st.ReqQ))
 				}
 			case protocol.Cancel:
 				key := [3]uint32{x.Index, x.Begin, x.Length}
 				if !w.outstanding[name][key] {
 					w.viol("C11", "cancel-not-outstanding", fmt.Sprintf("Cancel{%d,%d,%d} to %s does not refer to an outstanding request", x.Index, x.Begin, x.Length, name))
 				}
+				if w.cancelled[name] == nil {
+					w.cancelled[name] = map[[3]uint32]bool{}
+				}
+				w.cancelled[name][key] = true
 			}
 		default:
 			return
@@ -180,6 +194,7 @@ func (w *world) settle(name string) {
 	for k := range w.outstanding[name] {
 		if !held[k] {
 			delete(w.outstanding[name], k)
+			delete(w.cancelled[name], k)
 		}
 	}
 }
@@ -319,8 +334,28 @@ func (w *world) message(name string, m *Msg) {
 		buf := protocol.GetBuffer(len(data))
 		copy(buf, data)
 		pm = protocol.Piece{Index: i, Begin: b, Data: buf}
+		// by sending a Piece (good or bad) or a reject, the remote has answered the request for that block:
+		// it no longer counts towards its queue
+		{
+			_, b0 := w.pieceOf(m.C)
+			key := [3]uint32{i, b0, uint32(l)}
+			w.answered = &key
+		}
 	default:
 		return
+	}
+	if rj, ok := pm.(protocol.RejectRequest); ok {
+		key := [3]uint32{rj.Index, rj.Begin, rj.Length}
+		w.answered = &key
+	}
+	if w.answered != nil {
+		if w.cancelled[name] == nil {
+			w.cancelled[name] = map[[3]uint32]bool{}
+		}
+		if w.outstanding[name][*w.answered] {
+			w.cancelled[name][*w.answered] = true // answered: not live any more (the entry itself goes when the peer's state drops it)
+		}
+		w.answered = nil
 	}
 	err := peer.VerifHandleMessage(fp.P, pm)
 	if err != nil {
@@ -433,7 +468,7 @@ func Replay(in []byte) any {
 		return &Out{Note: "bad scenario: " + err.Error()}
 	}
 	out := &Out{ID: sc.ID}
-	w := &world{out: out, ctx: context.Background(), peers: map[string]*fakepeer.Peer{}, outstanding: map[string]map[[3]uint32]bool{}}
+	w := &world{out: out, ctx: context.Background(), peers: map[string]*fakepeer.Peer{}, outstanding: map[string]map[[3]uint32]bool{}, cancelled: map[string]map[[3]uint32]bool{}}
 	w.seed = uint64(sc.ID)*13 + 7
 	w.psize = 2 * CS
 	w.length = 3*CS - 1000
@@ -464,6 +499,15 @@ func Replay(in []byte) any {
 		fp := fakepeer.New(&t.Pieces, t.Info, t.Pieces.Bitmap(), netip.MustParseAddrPort(fmt.Sprintf("192.0.2.%d:6881", k+1)),
 			protocol.HandshakeResult{Hash: t.Hash, Id: hash.Hash(id), Fast: sc.Steps[0].CanFast[n], Extended: true}, true)
 		peer.VerifSetExt(fp.P, 0, 0, uint32(protocol.ExtDontHave))
+		if sc.ID%2 == 1 {
+			// a fast peer on a long link that advertised the smallest queue depth: the pipeline is then
+			// bounded by that depth (and by nothing else), "minimum two"
+			peer.VerifHandleMessage(fp.P, protocol.Extended0{ReqQ: 2, Messages: map[string]uint8{"lt_donthave": protocol.ExtDontHave}})
+			peer.VerifFastLink(fp.P)
+			for len(fp.Tor) > 0 {
+				<-fp.Tor
+			}
+		}
 		t.VerifAddPeer(fp.P)
 		w.peers[n] = fp
 		w.outstanding[n] = map[[3]uint32]bool{}
